@@ -118,7 +118,8 @@ def band(n):
 def big_orders():
     from ecdsa import curves as cv
     orders = [("curve:" + c.name, int(c.order)) for c in catalog.real_curves()]
-    for k in (53, 54, 55, 64, 112, 160, 161, 256, 521, 600):
+    for k in (53, 54, 55, 64, 112, 160, 161, 256, 521, 600, 1008, 1015, 1016,
+              1023, 1024, 2040, 2047):
         for d in (-1, 1, 2, 3):
             orders.append(("2^%d%+d" % (k, d), (1 << k) + d))
     return orders
@@ -253,7 +254,8 @@ def main(ctx):
     rep.rule = (
         "every order n in [2, %d] x every s in [1, n-1] x r in {1, n-1} x 3 "
         "canonical encoders; 17 curve orders and 2^k+{-1,1,2,3} (k in "
-        "53..600) x s in {1,2,n-2,n-1} u {floor(n/2) +- 2^j + d : all j < "
+        "53..2047: INTEGER contents of up to 256 octets, both DER length "
+        "forms) x s in {1,2,n-2,n-1} u {floor(n/2) +- 2^j + d : all j < "
         "bitlen(n), d in [-4,4]}; on toy curves every key x digests x every "
         "(r,s): verdict on the canonical encoding equals the verdict on "
         "(r,s) and the reference verdict. Non-trivial = s > n/2 (the encoder "
